@@ -23,7 +23,9 @@
 
 #include "common.h"
 #include "cmd_itoa.h"
+#include "cmd_ftoa.h"
 #include "cmd_memcmp.h"
+#include "cmd_parse.h"
 #include "cmd_pool.h"
 #include "cmd_quote.h"
 #include "cmd_strdec.h"
@@ -41,10 +43,14 @@ int main(int argc, char** argv) {
       out = "bad-op";
     } else if (tok[0] == "u64toa" || tok[0] == "i64toa") {
       cmd_itoa(tok, out);
+    } else if (tok[0] == "f64toa") {
+      cmd_ftoa(tok, out);
     } else if (tok[0] == "memcmp") {
       cmd_memcmp(tok, out);
     } else if (tok[0] == "quote") {
       cmd_quote(tok, out);
+    } else if (tok[0] == "parse" || tok[0] == "parse-seq") {
+      vparse::cmd(tok, out);
     } else if (tok[0] == "parsestr") {
       cmd_parsestr(tok, out);
     } else if (tok[0].compare(0, 5, "pool-") == 0) {
@@ -56,5 +62,7 @@ int main(int argc, char** argv) {
     fwrite(out.data(), 1, out.size(), stdout);
   }
   fflush(stdout);
+  pool_state.reset();
+  vh::ledger().reset();
   return 0;
 }
